@@ -105,7 +105,7 @@ class Base2DIn3D(object):
 
     def __key(self):
         """A tuple based on the object properties, useful for hashing."""
-        return tuple(hash(pt) for pt in self._vertices)
+        return tuple(self._vertices)
 
     def __hash__(self):
         return hash(self.__key())
